@@ -1,11 +1,13 @@
 /-
   C02 — draft selection: which `$schema` values select draft-07, which are refused, and what changes under draft-07
   (`$ref` siblings ignored, array-form `items` / `additionalItems`, `dependencies`).
-  Property theorems only (helper lemmas: JSV/Proofs/InvDraft.lean, JSV/Proofs/ResDraft.lean).
+  Property theorems only (helper lemmas: JSV/Proofs/InvDraft.lean, JSV/Proofs/ResDraft.lean; section "algebraic laws":
+  JSV/Proofs/SpecLaws*.lean).
 -/
 import JSV.Proofs.InvDraft
 import JSV.Proofs.ResDraft
 import JSV.Props.C01
+import JSV.Proofs.SpecLawsScope
 namespace JSV.C02
 open JSV Go GoVal Refine
 
@@ -283,6 +285,76 @@ theorem loaded_chain_draft2020 (env : Go.Env) (hd : env.draft7URIs = Generated.d
     · exact (detectDraft_2020 env hd rn.schema).2 h20
   exact ⟨by rw [hdr]; exact hall d0 (RDraft.doc?_mem s root d0 hd0), s, b, hs, hlog, hall⟩
 
+
+/-! ## algebraic laws
+
+The laws of `C01` (`true_accepts` … `adjacent_keywords_verdict`) are stated for an arbitrary environment, draft-07 included
+(the side condition of the conjunction law is "no `$ref`" there).  What is specific to draft-07: a schema object WITH `$ref`
+is its target, whatever else it contains, and reports nothing as evaluated. -/
+
+/-- draft-07: a schema object with `$ref` has exactly the verdict of the schema the reference designates, whatever its
+    other keywords are, and evaluates nothing (`ref_siblings_ignored7` at the level of `Spec.evalFuel`) -/
+theorem ref_is_target7 (env : Spec.Env) (hd : env.draft = .d7) (fuel : Nat) (scope : List NodeId) (s : NodeId) (n : Node)
+    (j : Json) (t : NodeId) (hn : env.st.get? s = some n) (hr : n.ref ≠ "") (ht : env.refTarget s = some t) :
+    Spec.evalFuel env (fuel + 1) scope s j
+      = (Spec.evalFuel env fuel (scope ++ [s]) t j).map fun r => r.map fun _ => {} := by
+  show Spec.evalStep env (Spec.evalFuel env fuel) scope s j = _
+  rw [ref_siblings_ignored7_target env _ scope s n j hd hn hr, ht]
+
+/-- … in particular the verdict is the target's -/
+theorem ref_is_target7_verdict (env : Spec.Env) (hd : env.draft = .d7) (fuel : Nat) (scope : List NodeId) (s : NodeId)
+    (n : Node) (j : Json) (t : NodeId) (hn : env.st.get? s = some n) (hr : n.ref ≠ "") (ht : env.refTarget s = some t) :
+    (Spec.evalFuel env (fuel + 1) scope s j).map (·.isSome)
+      = (Spec.evalFuel env fuel (scope ++ [s]) t j).map (·.isSome) := by
+  rw [ref_is_target7 env hd fuel scope s n j t hn hr ht]
+  cases Spec.evalFuel env fuel (scope ++ [s]) t j with
+  | none => rfl
+  | some r => cases r <;> rfl
+
+/-- … and two schema objects (of one schema resource) with `$ref` to the same target are interchangeable, whatever their
+    other keywords -/
+theorem ref_siblings_irrelevant7 (env : Spec.Env) (hd : env.draft = .d7) (fuel : Nat) (scope : List NodeId)
+    (s s' : NodeId) (n n' : Node) (j : Json) (t : NodeId) (hn : env.st.get? s = some n) (hn' : env.st.get? s' = some n')
+    (hr : n.ref ≠ "") (hr' : n'.ref ≠ "") (ht : env.refTarget s = some t) (ht' : env.refTarget s' = some t)
+    (hres : env.resource s = env.resource s') :
+    Spec.evalFuel env (fuel + 1) scope s j = Spec.evalFuel env (fuel + 1) scope s' j := by
+  rw [ref_is_target7 env hd fuel scope s n j t hn hr ht, ref_is_target7 env hd fuel scope s' n' j t hn' hr' ht']
+  congr 1
+  apply Laws.evalFuel_scope
+  exact (Laws.ScopeEqv_same_resource env (env.resource s') scope [s] [s'] (by simp) (by simp)
+    (by intro x hx; simp at hx; subst hx; exact hres) (by intro x hx; simp at hx; subst hx; rfl)).append [t]
+
+/-- evaluator (draft-07): a schema object with `$ref` returns nil exactly when its target does, whatever its other
+    keywords are, and annotations that mark nothing as evaluated -/
+theorem ref_is_target7_go (env : VEnv) (hwf : EnvWF env) (hst : StoreWF env.st) (hd : env.draft = .d7) (fuel : Nat)
+    (stack : List NodeId) (hstack : ∀ x, x ∈ stack → (env.info? x).isSome = true) (s : NodeId) (n : Node) (j : Json)
+    (hj : Json.WF j = true) (t : NodeId) (hn : env.st.get? s = some n) (hr : n.ref ≠ "") (i : Info)
+    (hi : env.info? s = some i) (ht : i.resolvedRef = some t)
+    (hdef : (Spec.evalFuel (specEnvOf env) fuel (stack ++ [s]) t j).isSome = true) :
+    (Go.validateFuel env (fuel + 1) stack (GoVal.ofJson j) s).verdict
+      = (Go.validateFuel env fuel (stack ++ [s]) (GoVal.ofJson j) t).verdict ∧
+    ∀ a, Go.validateFuel env (fuel + 1) stack (GoVal.ofJson j) s = .ok a →
+      (∀ k, k ∈ keysOf j → γprop a k = false) ∧ (∀ i, i < lenOf j → γitem a i = false) := by
+  have hs' := Laws.stack_snoc env hwf stack hstack s n hn
+  have ht' : (specEnvOf env).refTarget s = some t := by
+    show (env.info? s).bind (·.resolvedRef) = some t
+    rw [hi]; exact ht
+  obtain ⟨r, hr0⟩ := Option.isSome_iff_exists.1 hdef
+  have hl := ref_is_target7 (specEnvOf env) hd fuel stack s n j t hn hr ht'
+  rw [hr0] at hl
+  refine ⟨?_, ?_⟩
+  · rw [Laws.go_verdict env hwf hst _ _ hstack s j hj _ hl, Laws.go_verdict env hwf hst _ _ hs' t j hj r hr0]
+    cases r <;> rfl
+  · intro a ha
+    cases r with
+    | none =>
+      have := Laws.go_verdict env hwf hst _ _ hstack s j hj _ hl
+      rw [ha] at this; cases this
+    | some e =>
+      obtain ⟨a', ha', hm⟩ := Laws.go_anns env hwf hst _ _ hstack s j hj {} hl
+      rw [ha] at ha'; cases ha'
+      exact (Laws.AnnsMatch_empty_iff j a).1 hm
+
 /-! ## The statements are not vacuous -/
 
 def exREnv : Go.Env := { st := #[], reOk := fun _ => true, loader := none }
@@ -317,6 +389,20 @@ example (rec : Go.Rec) (inst : GoVal) :
     Go.validateStep exEnv7 rec [] inst 0 = (rec [0] (GoVal.strip inst) 1).bind fun _ => .ok {} :=
   ref_siblings_ignored7_model exEnv7 rfl rec [] inst 0 _ _ 1 rfl (by decide) rfl rfl
 
+/-- `ref_is_target7`: node 0 of `exStore` (`$ref` + `maxLength: 1`) is its target `{"type": "string"}` under draft-07 -/
+example : Spec.evalFuel (specEnvOf exEnv7) 2 [] 0 (.str "long")
+    = (Spec.evalFuel (specEnvOf exEnv7) 1 [0] 1 (.str "long")).map fun r => r.map fun _ => {} :=
+  ref_is_target7 (specEnvOf exEnv7) rfl 1 [] 0 _ (.str "long") 1 rfl (by decide) rfl
+example : (Go.validateFuel exEnv7 2 [] (GoVal.ofJson (.str "long")) 0).verdict
+    = (Go.validateFuel exEnv7 1 [0] (GoVal.ofJson (.str "long")) 1).verdict :=
+  (ref_is_target7_go exEnv7 (EnvWF_of_checks exEnv7 (by decide) (by decide) (fun _ _ _ => rfl))
+    (StoreWF_of_check _ (by decide)) rfl 1 [] (fun _ h => nomatch h) 0 _ (.str "long") (by decide) 1 rfl (by decide) _ rfl
+    rfl (by decide)).1
+/-- under 2020-12 the same object is the conjunction of its `$ref` and its `maxLength` (`C01.adjacent_keywords_step`), and
+    rejects `"long"`: the draft-07 law does not carry over -/
+example : (Spec.evalFuel (specEnvOf exEnv20) 2 [] 0 (.str "long")).map (·.isSome) = some false
+    ∧ (Spec.evalFuel (specEnvOf exEnv20) 1 [0] 1 (.str "long")).map (·.isSome) = some true := by decide
+
 /-- refusal -/
 def exEnvBad : VEnv := { exEnv7 with st := #[{ schema := "http://json-schema.org/draft-04/schema#" }] }
 example (inst : GoVal) : Go.validate exEnvBad Generated.supportedVersions 5 0 inst = .err :=
@@ -334,6 +420,11 @@ def exInfos2 : List (NodeId × Info) :=
 def exEnv2 : VEnv :=
   { st := exStore2, draft := .d7, infos := exInfos2, reMatch := fun _ _ => false, hash := fun _ => 0 }
 
+/-- the laws of `C01` hold under draft-07 as well: `{}` (node 3 of `exStore2`) and `{"not": {}}` (node 2) -/
+example : Spec.evalFuel (specEnvOf exEnv2) 1 [] 3 (.num 7) = some (some {}) :=
+  C01.true_accepts (specEnvOf exEnv2) 0 [] 3 _ (.num 7) rfl rfl
+example : Spec.evalFuel (specEnvOf exEnv2) 2 [] 2 (.num 7) = some none :=
+  C01.false_rejects (specEnvOf exEnv2) 0 [] 2 _ (.num 7) 3 _ rfl rfl rfl rfl
 example : Spec.valid (specEnvOf exEnv2) 4 0 (.arr [.str "x"]) = some true := by decide
 example : Spec.valid (specEnvOf exEnv2) 4 0 (.arr [.str "x", .null]) = some false := by decide
 example : Spec.valid (specEnvOf exEnv2) 4 0 (.arr [.num 1]) = some false := by decide
